@@ -36,6 +36,8 @@ func oblServes(o *Obligation, prop string) bool {
 	return hasProp(o.Props, prop)
 }
 
+var partialRun bool
+
 func report(eng *Engine, prop, tier string, seed int, verif string, results []*fres, missing, specErrs []string,
 	lock LockFile, known []KnownFinding, pf *Portfolio, wall, loadS, genS, solveS float64, evidenceOut string, showAll bool, prelude string) int {
 
@@ -258,9 +260,12 @@ func report(eng *Engine, prop, tier string, seed int, verif string, results []*f
 	if out == "" {
 		out = filepath.Join(verif, "evidence", prop+".json")
 	}
-	os.MkdirAll(filepath.Dir(out), 0o755)
-	b, _ := json.MarshalIndent(ev, "", " ")
-	os.WriteFile(out, append(b, '\n'), 0o644)
+	// a run restricted to some functions (--func, a debugging aid) must not replace the evidence of a full run
+	if evidenceOut != "" || !partialRun {
+		os.MkdirAll(filepath.Dir(out), 0o755)
+		b, _ := json.MarshalIndent(ev, "", " ")
+		os.WriteFile(out, append(b, '\n'), 0o644)
+	}
 
 	if showAll {
 		for _, r := range reps {
